@@ -499,3 +499,901 @@ def run(ctx: Ctx):
     ctx.copy_coq("C16")
     status = ctx.coq_build()
     ctx.register_props(status)
+
+
+# ============================================================================================ implementation side
+import contextlib  # noqa: E402
+
+import grid.poisson as GP  # noqa: E402
+import grid.robust_poisson as GR  # noqa: E402
+from grid.atomgrid import AtomGrid  # noqa: E402
+from grid.becke import BeckeWeights  # noqa: E402
+from grid.molgrid import MolGrid  # noqa: E402
+from grid.onedgrid import GaussLaguerre, GaussLegendre, OneDGrid, Trapezoidal  # noqa: E402
+from grid.rtransform import BeckeRTransform, IdentityRTransform, InverseRTransform, LinearFiniteRTransform  # noqa: E402
+from grid.utils import generate_real_spherical_harmonics  # noqa: E402
+from scipy.integrate import quad  # noqa: E402
+from scipy.special import erf  # noqa: E402
+
+S3, S5, S15 = math.sqrt(3 / (4 * math.pi)), math.sqrt(5 / math.pi), math.sqrt(15 / math.pi)
+
+
+def real_harmonics_l2(xyz: np.ndarray) -> np.ndarray:
+    """Independent oracle: the nine real spherical harmonics of degree <= 2 from their Cartesian formulas, in Horton-2 row
+    order (l ascending; m = 0, 1, -1, 2, -2), without Condon-Shortley phase."""
+    x, y, z = xyz.T
+    r = np.sqrt(x * x + y * y + z * z)
+    return np.array([
+        np.full_like(r, 0.5 / math.sqrt(math.pi)),
+        S3 * z / r, S3 * x / r, S3 * y / r,
+        0.25 * S5 * (3 * z * z - r * r) / r ** 2, 0.5 * S15 * x * z / r ** 2, 0.5 * S15 * y * z / r ** 2,
+        0.25 * S15 * (x * x - y * y) / r ** 2, 0.5 * S15 * x * y / r ** 2])
+
+
+@contextlib.contextmanager
+def patched(mod, name, repl):
+    old = getattr(mod, name)
+    setattr(mod, name, repl)
+    try:
+        yield
+    finally:
+        setattr(mod, name, old)
+
+
+class Recorder:
+    """Stands in for grid.ode.solve_ode_bvp / solve_ode_ivp inside grid.poisson: records what the code hands over and
+    returns marker solutions  r |-> c_k * r^p  (p = 2 for the BVP whose closure divides by r, 1 for the IVP)."""
+
+    def __init__(self, power):
+        self.calls = []
+        self.power = power
+
+    def mark(self, k):
+        return 1.0 + 0.37 * k + 0.011 * k * k
+
+    def __call__(self, x, fx, coeffs, cond, transform=None, **kw):
+        k = len(self.calls)
+        self.calls.append(dict(x=x, fx=fx, coeffs=coeffs, cond=cond, transform=transform, kw=dict(kw)))
+        c, p = self.mark(k), self.power
+        return lambda r, c=c, p=p: c * np.asarray(r, dtype=float) ** p
+
+
+def dyadic_radial_grid(rng, n):
+    """radial points on a dyadic lattice (exact in binary64 and as Coq rationals), increasing, positive."""
+    pts = sorted({rng.randint(1, 64 * 12) / 64 for _ in range(3 * n)})[:n]
+    return OneDGrid(np.array(pts, dtype=float), np.ones(len(pts)), (0, np.inf))
+
+
+def ev(c, r):
+    """a coefficient as grid.ode evaluates it: callables on an array, numbers as they are"""
+    if callable(c):
+        with np.errstate(all="ignore"):
+            return float(np.asarray(c(np.array([r], dtype=float)), dtype=float).ravel()[0])
+    return float(c)
+
+
+def ll_from_coeff(c0):
+    """degree l with -l(l+1) = coeff_0(1.0) (None if no integer fits)"""
+    v = -ev(c0, 1.0)
+    l = round((-1 + math.sqrt(max(0.0, 1 + 4 * v))) / 2)
+    return l if abs(l * (l + 1) - v) < 1e-9 else None
+
+
+HDR = ("From Coq Require Import Reals ZArith List Bool Lra.\nFrom Coquelicot Require Import Coquelicot.\nFrom Interval Require Import Tactic.\n"
+       "From P Require Import C16_base C16_gen C16_model.\nImport ListNotations.\nOpen Scope R_scope.\n")
+
+
+def zl(xs):
+    return "[" + "; ".join(f"({int(x)})%Z" for x in xs) + "]"
+
+
+def tolq(y, rel=1e-11):
+    return r_lit(Fraction(rel) * (1 + abs(Fraction(y))))
+
+
+def capture_solver(ctx: Ctx, kind: str, it: int):
+    """one recorded run of solve_poisson_{bvp,ivp} on a small atomic grid -> Coq cases + python-level checks"""
+    rng = ctx.rng
+    deg = rng.choice([3, 5, 5, 7])
+    rgrid = dyadic_radial_grid(rng, rng.randint(5, 9))
+    center = np.array([rng.randint(-4, 4) / 4 for _ in range(3)])
+    ag = AtomGrid(rgrid, degrees=[deg], center=center)
+    L = ag.l_max // 2
+    nrow = (L + 1) ** 2
+    nprng = np.random.default_rng(rng.randint(0, 2 ** 31))
+    vals = nprng.normal(size=ag.size)
+    tf = IdentityRTransform()
+    rec = Recorder(2 if kind == "bvp" else 1)
+    user = {"tol": 1e-3} if (kind == "bvp" and it % 2) else ({"rtol": 1e-5} if it % 2 else {})
+    include_origin, remove = bool(it % 3 != 1), (None if it % 4 == 3 else float(rng.choice([4.0, 8.0, 1e6])))
+    r_interval = (float(rgrid.points[-1]), float(rgrid.points[0]))
+    if kind == "bvp":
+        with patched(GP, "solve_ode_bvp", rec):
+            pot = GP.solve_poisson_bvp(ag, vals.copy(), tf, include_origin=include_origin, remove_large_pts=remove, ode_params=dict(user))
+    else:
+        with patched(GP, "solve_ode_ivp", rec):
+            pot = GP.solve_poisson_ivp(ag, vals.copy(), tf, r_interval=r_interval, ode_params=dict(user))
+    key = f"{kind}:seed={ctx.seed}:it={it}:deg={deg}:n={rgrid.size}"
+    cases, meta = [], []      # tactic cases
+    P_ = kind
+
+    def add(goal, tac, what, obs):
+        cases.append((goal, tac))
+        meta.append((key, what, obs))
+
+    # ---- python-level: number of solves, mesh, forwarded options
+    splines = ag.radial_component_splines(vals)          # what the code must have used (AtomGrid wrapper: weights are 1)
+    Q = float(ag.integrate(vals))
+    Y00 = float(generate_real_spherical_harmonics(0, np.array([0.1]), np.array([0.1]))[0, 0])
+    problems = []
+    if len(rec.calls) != nrow:
+        problems.append(("count", len(rec.calls), f"{len(rec.calls)} solver calls, the harmonics have {nrow} rows"))
+    if kind == "bvp":
+        exp_x = rgrid.points.copy()
+        if include_origin and np.all(exp_x > 0):
+            exp_x = np.hstack(([0.0], exp_x))
+        if remove is not None:
+            exp_x = exp_x[~(exp_x > remove)]
+        for c in rec.calls:
+            if not (np.asarray(c["x"]).shape == exp_x.shape and np.array_equal(c["x"], exp_x)):
+                problems.append(("mesh", float(np.asarray(c["x"]).size), "mesh handed to the solver is not the radial grid (+origin, -large points)"))
+                break
+    else:
+        for c in rec.calls:
+            if tuple(c["x"]) != r_interval:
+                problems.append(("interval", None, "r_interval not forwarded"))
+                break
+    for c in rec.calls:
+        if c["transform"] is not tf or any(c["kw"].get(k) != v for k, v in user.items()) or c["kw"].get("no_derivatives") is not True:
+            problems.append(("options", None, "transform / ode_params / no_derivatives not forwarded to the ODE solver"))
+            break
+    # ---- the enumeration: (counter, degree, monopole flag) per call vs the generated loop nest
+    trip = []
+    for k, c in enumerate(rec.calls):
+        l = ll_from_coeff(c["coeffs"][0]) if len(c["coeffs"]) else None
+        cond = c["cond"]
+        vals_c = [float(t[2]) for t in cond] if kind == "bvp" else [float(v) for v in cond]
+        trip.append((k, -1 if l is None else l, any(v != 0.0 for v in vals_c)))
+    mono_possible = Q != 0.0
+    exp_list = "[" + "; ".join(f"(({k})%Z, ({l})%Z, {'true' if (b and mono_possible) else 'false'})" for k, l, b in trip) + "]"
+    add(f"map (fun it : Z * (Z * Z) => (fst it, fst (snd it), {P_}_is_monopole (fst (snd it)) (snd (snd it)))) ({P_}_iters {L}%Z) = {exp_list}",
+        "vm_compute; reflexivity", "enumeration", [list(map(int, t)) for t in trip])
+    add(f"map {P_}_fx_index (zrange 0 {nrow}%Z) = zrange 0 {nrow}%Z /\\ length {P_}_coeffs = {len(rec.calls[0]['coeffs']) if rec.calls else 0}%nat",
+        "split; vm_compute; reflexivity", "fx_index", None)
+    # ---- per call: coefficients, right-hand side, conditions on dyadic radii
+    radii = [rng.randint(1, 4096) / 256 for _ in range(2)] + [2.0 ** -rng.randint(8, 30)]
+    ncoef = 3
+    for k, c in enumerate(rec.calls):
+        if trip[k][1] < 0 or len(c["coeffs"]) != ncoef:
+            problems.append(("coeffs", k, f"call {k}: coefficient list of length {len(c['coeffs'])} / coeff_0(1) is not -l(l+1)"))
+            continue
+        l = trip[k][1]
+        for r in radii if k in (0, 1, nrow - 1) or k % 3 == 0 else radii[:1]:
+            for j in range(ncoef):
+                y = ev(c["coeffs"][j], r)
+                add(f"Rabs (nth {j} {P_}_coeffs (fun _ _ => 0) (IZR {l}) {r_lit(r)} - {r_lit(y)}) <= {tolq(y)}",
+                    f"cbv [nth {P_}_coeffs {P_}_coeff_0 {'ivp_coeff_1' if kind == 'ivp' else ''}]; interval with (i_prec 80)", f"coeff[{j}](l={l}, r={r})", y)
+            rho_k = float(splines[k](r))
+            y = ev(c["fx"], r)
+            add(f"Rabs ({P_}_fx (fun _ _ => {r_lit(rho_k)}) {k}%Z {r_lit(r)} - {r_lit(y)}) <= {tolq(y)}",
+                f"unfold {P_}_fx; interval with (i_prec 80)", f"f_x[{k}](r={r})", y)
+            ctx.case((kind, deg, rgrid.size, k, r))
+        if kind == "bvp" and l >= 0:
+            y = ev(c["coeffs"][0], 0.0)
+            add(f"Rabs (bvp_coeff_0_at0 (IZR {l}) - {r_lit(y)}) <= {tolq(y, 1e-9)}", "unfold bvp_coeff_0_at0; interval with (i_prec 80)", f"coeff_0(l={l}, r=0)", y)
+        # conditions
+        if kind == "bvp":
+            tags = [(int(t[0]), int(t[1])) for t in c["cond"]]
+            bvals = [float(t[2]) for t in c["cond"]]
+            add(f"map fst (bvp_cond (fst (snd (nth {k} (bvp_iters {L}%Z) (0,(0,0))%Z))) (snd (snd (nth {k} (bvp_iters {L}%Z) (0,(0,0))%Z))) 0) = "
+                "[" + "; ".join(f"(({a})%Z, ({b})%Z)" for a, b in tags) + "]", "vm_compute; reflexivity", f"bd_cond tags call {k}", tags)
+        else:
+            bvals = [float(v) for v in c["cond"]]
+        B = f"({P_}_boundary {r_lit(Q)} {r_lit(Y00)})"
+        extra = f" {r_lit(r_interval[0])}" if kind == "ivp" else ""
+        itk = f"(nth {k} ({P_}_iters {L}%Z) (0,(0,0))%Z)"
+        sel = "map snd " if kind == "bvp" else ""
+        for j, y in enumerate(bvals):
+            add(f"forall l m, (l, m) = snd {itk} -> Rabs (nth {j} ({sel}({P_}_cond l m {B}{extra})) 0 - {r_lit(y)}) <= {tolq(y)}",
+                f"intros l m E; vm_compute in E; injection E as -> ->; unfold {P_}_cond, {P_}_boundary; "
+                f"match goal with |- context [{P_}_is_monopole ?a ?b] => let v := eval vm_compute in ({P_}_is_monopole a b) in change ({P_}_is_monopole a b) with v end; "
+                f"cbv iota; cbn [map snd nth]; interval with (i_prec 80)", f"condition[{j}] call {k}", y)
+    # ---- the returned closure: pairing of solution k with harmonic row k, radial factor
+    if L <= 2 and len(rec.calls) == nrow:
+        pts = center + nprng.uniform(-3, 3, size=(6, 3))
+        got = pot(pts.copy())
+        rel = pts - center
+        rr = np.linalg.norm(rel, axis=1)
+        Yi = real_harmonics_l2(rel)[:nrow]
+        exp = sum(rec.mark(k) * rr * Yi[k] for k in range(nrow))     # c_k r^2 / r (BVP)  or  c_k r (IVP)
+        if not np.allclose(got, exp, rtol=1e-10, atol=1e-12):
+            problems.append(("pairing", float(np.max(np.abs(got - exp))),
+                             "returned closure is not sum_k radial_value(solution_k)(r) * Y_k(theta, phi) with Horton rows"))
+        # generated radial factor on one point
+        u_val = rec.mark(1) * rr[0] ** rec.power
+        yk = u_val / rr[0] if kind == "bvp" else u_val
+        add(f"Rabs ({P_}_radial_value (fun _ => {r_lit(u_val)}) {r_lit(float(rr[0]))} - {r_lit(yk)}) <= {tolq(yk)}",
+            f"unfold {P_}_radial_value; interval with (i_prec 80)", "radial factor", yk)
+    if kind == "bvp":   # documented: the potential is set to zero at the centre itself
+        at0 = pot(center.reshape(1, 3).copy())
+        if not (at0.shape == (1,) and at0[0] == 0.0):
+            problems.append(("origin", float(at0[0]), "value at the expansion centre is not 0 (documented convention of the BVP solver)"))
+    ctx.count(f"capture_{kind}_L{L}")
+    return cases, meta, problems, key
+
+
+def tie_solvers(ctx: Ctx):
+    cases, meta = [], []
+    n = 2 if ctx.quick else 8
+    for kind in ("bvp", "ivp"):
+        for it in range(n):
+            c, m, problems, key = capture_solver(ctx, kind, it)
+            cases += c
+            meta += m
+            for what, obs, text in problems:
+                ctx.fail(f"corr_{kind}_{what}", f"{key}:{what}", obs, f"{kind} solver, {text}", {"case": key}, found_input=False)
+    bad = ctx.coq_tactic_cases("C16_corr", HDR, cases, shard=max(10, len(cases) // 14 + 1), timeout=900)
+    seen = set()
+    for i in bad:
+        key, what, obs = meta[i]
+        kind = key.split(":")[0]
+        cat = what.split("[")[0].split("(")[0].split(" ")[0]
+        if (kind, cat) in seen:
+            continue
+        seen.add((kind, cat))
+        ctx.fail(f"corr_{kind}_{cat}", f"{key}:{what}", obs if not isinstance(obs, list) else None,
+                 f"generated model of the {kind} solver does not match the implementation: {what} ({key})", {"goal": cases[i][0][:600]}, found_input=False)
+    if meta:
+        ctx.sample({"case": meta[0][0], "what": meta[0][1], "impl": meta[0][2]})
+        mid = len(meta) // 2
+        ctx.sample({"case": meta[mid][0], "what": meta[mid][1], "impl": meta[mid][2]})
+    ctx.cov["correspondence_cases"] = len(cases)
+    return len(bad)
+
+
+def tie_laplacian(ctx: Ctx):
+    """interpolate_laplacian on densities g(r) * Y_k: the result is Y_k(p) * lap_row(f_k, f_k', f_k'', degrees[k], r)."""
+    rng = ctx.rng
+    cases, meta = [], []
+    for it in range(1 if ctx.quick else 4):
+        deg = 5 if it % 2 == 0 else 3
+        rgrid = dyadic_radial_grid(rng, rng.randint(6, 9))
+        center = np.array([rng.randint(-4, 4) / 4 for _ in range(3)])
+        ag = AtomGrid(rgrid, degrees=[deg], center=center)
+        L = ag.l_max // 2
+        nrow = (L + 1) ** 2
+        nprng = np.random.default_rng(rng.randint(0, 2 ** 31))
+        Ygrid = real_harmonics_l2(ag.points - center)
+        rg = np.linalg.norm(ag.points - center, axis=1)
+        for k in range(nrow):
+            a = rng.randint(2, 12) / 8
+            vals = (1.0 + rg) * np.exp(-a * rg) * Ygrid[k]
+            lap = GP.interpolate_laplacian(ag, vals.copy())
+            spl = ag.radial_component_splines(vals)
+            pts = center + nprng.uniform(-2.5, 2.5, size=(2, 3))
+            got = lap(pts.copy())
+            rel = pts - center
+            rr = np.linalg.norm(rel, axis=1)
+            Yp = real_harmonics_l2(rel)
+            key = f"laplacian:seed={ctx.seed}:it={it}:deg={deg}:row={k}"
+            for j in range(len(pts)):
+                f0, f1, f2 = (float(spl[k](rr[j], nu)) for nu in (0, 1, 2))
+                y = float(got[j])
+                tol = r_lit(Fraction(1e-8) * (1 + abs(Fraction(y)) + abs(Fraction(f0)) / Fraction(float(rr[j])) ** 2))
+                cases.append((f"Rabs ({r_lit(float(Yp[k][j]))} * lap_row {r_lit(f0)} {r_lit(f1)} {r_lit(f2)} (IZR (nth {k} (lap_degrees {L}%Z) 0%Z)) {r_lit(float(rr[j]))} - {r_lit(y)}) <= {tol}",
+                              f"let d := eval vm_compute in (nth {k} (lap_degrees {L}%Z) 0%Z) in change (nth {k} (lap_degrees {L}%Z) 0%Z) with d; unfold lap_row; interval with (i_prec 80)"))
+                meta.append((key, f"point {pts[j].tolist()}", y))
+                ctx.case(("laplacian", deg, k, j, it))
+        # degrees list as a whole, and the cut-off rule on a spherical function
+        cases.append((f"lap_degrees {L}%Z = {zl([l * (l + 1) for l in range(L + 1) for _ in range(2 * l + 1)])}", "vm_compute; reflexivity"))
+        meta.append((f"laplacian:degrees:L={L}", "degrees", None))
+        vals = np.exp(-rg)
+        lap = GP.interpolate_laplacian(ag, vals.copy())
+        u = np.array([0.6, 0.0, 0.8])
+        a0, a1 = lap(center.reshape(1, 3).copy(), 0.25), lap((center + 0.25 * u).reshape(1, 3), 0.25)
+        a2 = lap((center + 0.125 * u).reshape(1, 3), 0.25)
+        if not (np.allclose(a0, a1, rtol=1e-9, atol=1e-12) and np.allclose(a2, a1, rtol=1e-9, atol=1e-12)):
+            ctx.fail("corr_laplacian_cutoff", f"laplacian:cutoff:seed={ctx.seed}:it={it}", float(a0[0]),
+                     "radii below the cut-off are not replaced by the cut-off (spherical function)", {"center": center.tolist()}, found_input=False)
+    # molecular grid: sum over the atoms of the atomic Laplacians of w_A * f
+    mg, _ = small_molgrid(ctx, 2, dyadic=True)
+    nprng = np.random.default_rng(rng.randint(0, 2 ** 31))
+    vals = nprng.normal(size=mg.size)
+    pts = nprng.uniform(-2, 2, size=(5, 3)) + mg.atcoords[0]
+    got = GP.interpolate_laplacian(mg, vals.copy())(pts.copy())
+    exp = np.zeros(len(pts))
+    for i in range(len(mg.atcoords)):
+        s, e = mg.indices[i], mg.indices[i + 1]
+        exp += GP.interpolate_laplacian(mg[i], (vals * mg.aim_weights)[s:e])(pts.copy())
+    ctx.case(("laplacian", "mol"))
+    if not np.allclose(got, exp, rtol=1e-10, atol=1e-10):
+        ctx.fail("corr_laplacian_mol", f"laplacian:mol:seed={ctx.seed}", float(np.max(np.abs(got - exp))),
+                 "interpolate_laplacian on a MolGrid is not the sum over atoms of the atomic Laplacians of aim_weights * f", {}, found_input=False)
+    bad = ctx.coq_tactic_cases("C16_corr_lap", HDR, cases, shard=max(8, len(cases) // 8 + 1), timeout=900)
+    for i in bad[:3]:
+        key, what, obs = meta[i]
+        ctx.fail("corr_laplacian_row", f"{key}:{what}", obs, f"generated lap_row / lap_degrees do not enclose interpolate_laplacian: {key} {what}",
+                 {"goal": cases[i][0][:600]}, found_input=False)
+    ctx.cov["laplacian_cases"] = len(cases)
+    return len(bad)
+
+
+def small_molgrid(ctx: Ctx, natom: int, dyadic=False, n_rad=40, deg=9, sep=None):
+    rng = ctx.rng
+    if natom == 1:
+        coords = np.zeros((1, 3))
+    else:
+        d = sep if sep is not None else rng.choice([1.5, 2.0, 3.0])
+        coords = np.array([[0.0, 0.0, 0.0], [d, 0.0, 0.0], [0.0, d, 0.0]][:natom])
+    tf = BeckeRTransform(1e-4, R=1.5)
+    ats = []
+    for c in coords:
+        rgrid = dyadic_radial_grid(rng, 6) if dyadic else tf.transform_1d_grid(GaussLegendre(n_rad))
+        ats.append(AtomGrid(rgrid, degrees=[3 if dyadic else deg], center=c))
+    mg = MolGrid(atnums=np.array([1] * natom), atgrids=ats, aim_weights=BeckeWeights(order=3), store=True)
+    return mg, tf
+
+
+def tie_molhelper(ctx: Ctx):
+    """_interpolate_molgrid_helper: atom i gets (func_vals * aim_weights)[indices[i]:indices[i+1]] and molgrid[i]; result is the sum."""
+    nprng = np.random.default_rng(ctx.rng.randint(0, 2 ** 31))
+    for natom in (1, 2, 3):
+        mg, _ = small_molgrid(ctx, natom, dyadic=True)
+        for as_atomgrid in ((True, False) if natom == 1 else (False,)):
+            grid = mg[0] if as_atomgrid else mg
+            vals = nprng.integers(-9, 10, size=grid.size).astype(float)
+            w = np.ones(grid.size) if as_atomgrid else mg.aim_weights
+            seen = []
+
+            def cb(atom_grid, fv, seen=seen):
+                i = len(seen)
+                seen.append((atom_grid, np.array(fv)))
+                return lambda p, i=i: (i + 1.0) * np.ones(len(p)) + 0.5 * p[:, 0]
+            pot = GP._interpolate_molgrid_helper(grid, vals.copy(), cb)
+            pts = nprng.normal(size=(4, 3))
+            got = pot(pts.copy())
+            exp = sum((i + 1.0) + 0.5 * pts[:, 0] for i in range(natom))
+            ok = len(seen) == natom and np.array_equal(got, exp)
+            for i, (g, fv) in enumerate(seen):
+                s, e = (0, grid.size) if as_atomgrid else (mg.indices[i], mg.indices[i + 1])
+                ok = ok and np.array_equal(fv, (vals * w)[s:e]) and np.array_equal(g.points, (grid if as_atomgrid else mg[i]).points)
+            ctx.case(("molhelper", natom, as_atomgrid))
+            if not ok:
+                ctx.fail("corr_molhelper", f"molhelper:natom={natom}:atomgrid={as_atomgrid}:seed={ctx.seed}", None,
+                         "_interpolate_molgrid_helper does not hand (func_vals * aim_weights)[slice of atom i] to atom i and sum the results",
+                         {}, found_input=False)
+
+
+def s_density(points, center, coeffs, alphas):
+    r2 = np.sum((points - center) ** 2, axis=1)
+    return sum(c * (a / np.pi) ** 1.5 * np.exp(-a * r2) for c, a in zip(coeffs, alphas))
+
+
+def s_potential(points, center, coeffs, alphas):
+    r = np.linalg.norm(points - center, axis=1)
+    out = np.zeros(len(points))
+    for c, a in zip(coeffs, alphas):
+        with np.errstate(all="ignore"):
+            v = erf(math.sqrt(a) * r) / r
+        v[r < 1e-12] = 2 * math.sqrt(a / math.pi)
+        out += c * v
+    return out
+
+
+def tie_robust(ctx: Ctx):
+    """solve_poisson_robust with the BVP solve replaced by a recorder: residual handed over and recombination."""
+    from grid.coulomb import load_atomic_gaussian_params
+    rng = ctx.rng
+    nprng = np.random.default_rng(rng.randint(0, 2 ** 31))
+    cases, meta = [], []
+    for natom, atnums in ((1, [rng.choice([1, 6, 8])]), (2, [1, rng.choice([6, 7, 17])])):
+        mg, tf = small_molgrid(ctx, natom, dyadic=True)
+        dens = np.abs(nprng.normal(size=mg.size)) + s_density(mg.points, mg.atcoords[0], [0.7], [0.9])
+        for split2 in (False, True):
+            cap = {}
+
+            def fake_bvp(molgrid, residual, transform, **kw):
+                cap.update(grid=molgrid, residual=np.array(residual), tf=transform, kw=kw)
+                return lambda p: 0.25 + p[:, 1] - 2.0 * p[:, 2]
+            fits = {}
+            orig_fit = GR._fit_residual_gaussians
+
+            def rec_fit(grid_pts, residual, atcoords, alphas_basis):
+                out = orig_fit(grid_pts, residual, atcoords, alphas_basis)
+                fits.update(inp=np.array(residual), out=out)
+                return out
+            with patched(GR, "solve_poisson_bvp", fake_bvp), patched(GR, "_fit_residual_gaussians", rec_fit):
+                pot = GR.solve_poisson_robust(mg, dens.copy(), InverseRTransform(tf), np.array(atnums), mg.atcoords.copy(), split2=split2,
+                                              remove_large_pts=7.0)
+            pts = np.vstack([nprng.uniform(-3, 3, size=(5, 3)), mg.atcoords[:1]])
+            got = pot(pts.copy())
+            key = f"robust:natom={natom}:atnums={atnums}:split2={split2}:seed={ctx.seed}"
+            params = [load_atomic_gaussian_params(int(z)) for z in atnums]
+            res1 = dens - sum(s_density(mg.points, c, *p) for c, p in zip(mg.atcoords, params))
+            vcore = sum(s_potential(pts, c, *p) for c, p in zip(mg.atcoords, params))
+            marker = 0.25 + pts[:, 1] - 2.0 * pts[:, 2]
+            scale = 1 + float(np.max(np.abs(dens)))
+            ok_opts = cap.get("grid") is mg and cap.get("kw") == {"remove_large_pts": 7.0} and isinstance(cap.get("tf"), InverseRTransform)
+            if split2:
+                fc, fa, fcen, rout = fits["out"]
+                fit_rho = sum((c * (a / np.pi) ** 1.5 * np.exp(-a * np.sum((mg.points - ce) ** 2, axis=1)) for c, a, ce in zip(fc, fa, fcen)), np.zeros(mg.size))
+                vfit = sum((s_potential(pts, ce, [c], [a]) for c, a, ce in zip(fc, fa, fcen)), np.zeros(len(pts)))
+                ok_res = np.allclose(fits["inp"], res1, rtol=0, atol=1e-11 * scale) and np.allclose(cap["residual"], res1 - fit_rho, rtol=0, atol=1e-10 * scale) \
+                    and np.all(np.asarray(fc) >= 0)
+                exp = vcore + vfit + marker
+            else:
+                ok_res = (not fits) and np.allclose(cap["residual"], res1, rtol=0, atol=1e-11 * scale)
+                exp = vcore + marker
+            ctx.case(("robust", natom, tuple(atnums), split2))
+            ctx.count("robust_capture")
+            if not (ok_opts and ok_res and np.allclose(got, exp, rtol=1e-10, atol=1e-10)):
+                what = "options" if not ok_opts else "residual" if not ok_res else "recombination"
+                ctx.fail(f"corr_robust_{what}", f"{key}:{what}", float(np.max(np.abs(got - exp))),
+                         f"solve_poisson_robust ({what}): the residual handed to solve_poisson_bvp / the sum returned is not "
+                         "density - core model (- fit), analytic core potential (+ fit potential) + numerical potential", {"case": key}, found_input=False)
+            # generated arithmetic on a few grid points / evaluation points
+            i = int(nprng.integers(0, mg.size))
+            core_i = float(sum(GR._build_core_density(mg.points[i:i + 1], c, *p)[0] for c, p in zip(mg.atcoords, params)))
+            if natom == 1 and not split2:
+                cases.append((f"Rabs (robust_split1 {r_lit(float(dens[i]))} {r_lit(core_i)} - {r_lit(float(cap['residual'][i]))}) <= {tolq(float(dens[i]), 1e-10)}",
+                              "unfold robust_split1; interval with (i_prec 80)"))
+                meta.append((key, "robust_split1"))
+            if split2:
+                fi = float(fits["inp"][i] - fits["out"][3][i])
+                cases.append((f"Rabs (robust_split2 {r_lit(float(fits['inp'][i]))} {r_lit(fi)} - {r_lit(float(fits['out'][3][i]))}) <= {tolq(float(dens[i]), 1e-10)}",
+                              "unfold robust_split2; interval with (i_prec 80)"))
+                meta.append((key, "robust_split2"))
+            j = 0
+            vb = float(exp[j] - vcore[j] - marker[j])
+            cases.append((f"Rabs (robust_total {r_lit(float(vcore[j]))} {r_lit(vb)} {r_lit(float(marker[j]))} - {r_lit(float(got[j]))}) <= {tolq(float(got[j]), 1e-10)}",
+                          "unfold robust_total; interval with (i_prec 80)"))
+            meta.append((key, "robust_total"))
+    # core density of one primitive, and accumulation over two primitives
+    for _ in range(3):
+        c, a, r2 = rng.randint(1, 64) / 16, rng.randint(1, 4096) / 64, rng.randint(1, 256) / 128
+        p = np.array([[math.sqrt(r2), 0.0, 0.0]])
+        y = float(GR._build_core_density(p, np.zeros(3), np.array([c]), np.array([a]))[0])
+        r2f = float(np.sum(p ** 2))
+        cases.append((f"Rabs (core_density_term {r_lit(c)} {r_lit(a)} {r_lit(r2f)} - {r_lit(y)}) <= {tolq(y, 1e-10)}",
+                      "unfold core_density_term; interval with (i_prec 80)"))
+        meta.append((f"core_density:c={c}:alpha={a}:r2={r2f}", "core_density_term"))
+        y2 = float(GR._build_core_density(p, np.zeros(3), np.array([c, 2 * c]), np.array([a, a / 4]))[0])
+        cases.append((f"Rabs (core_density_term {r_lit(c)} {r_lit(a)} {r_lit(r2f)} + core_density_term {r_lit(2 * c)} {r_lit(a / 4)} {r_lit(r2f)} - {r_lit(y2)}) <= {tolq(y2, 1e-10)}",
+                      "unfold core_density_term; interval with (i_prec 80)"))
+        meta.append((f"core_density_sum:c={c}:alpha={a}:r2={r2f}", "core_density_term"))
+        ctx.case(("core_density", c, a, r2))
+    bad = ctx.coq_tactic_cases("C16_corr_rob", HDR, cases, shard=max(8, len(cases) // 4 + 1), timeout=900)
+    for i in bad[:3]:
+        key, what = meta[i]
+        ctx.fail(f"corr_robust_{what}", f"{key}:{what}", None, f"generated {what} does not enclose the implementation ({key})", {"goal": cases[i][0][:600]},
+                 found_input=False)
+    ctx.cov["robust_cases"] = len(cases)
+
+
+# ============================================================================================ oracle validation + search (sweeps)
+TOL = 1e-2          # absolute accuracy per unit of total |charge|: the tolerance of the existing tests (test_poisson.py: atol=1e-2)
+LIN_TOL = 2e-4      # linearity defect allowed per unit of |a| V1 + |b| V2 scale (solver tolerance 1e-6, mesh adaptation)
+
+
+def radial_grid(spec):
+    name = spec[0]
+    if name == "becke_gl":          # BeckeRTransform(rmin, R) on GaussLegendre(n)
+        _, n, rmin, R = spec
+        tf = BeckeRTransform(rmin, R=R)
+        return tf.transform_1d_grid(GaussLegendre(n)), tf
+    if name == "becke_trap":        # BeckeRTransform(rmin, R, trim_inf=True) on Trapezoidal(n)  (test_poisson.py)
+        _, n, rmin, R = spec
+        tf = BeckeRTransform(rmin, R, trim_inf=True)
+        return tf.transform_1d_grid(Trapezoidal(n)), tf
+    if name == "identity_laguerre":
+        tf = IdentityRTransform()
+        return tf.transform_1d_grid(GaussLaguerre(spec[1])), tf
+    if name == "linear_trap":       # LinearFiniteRTransform(rmin, rmax) on Trapezoidal(n)  (IVP test)
+        _, n, rmin, rmax = spec
+        tf = LinearFiniteRTransform(rmin, rmax)
+        return tf.transform_1d_grid(Trapezoidal(n)), tf
+    raise KeyError(name)
+
+
+def build_grid(case):
+    rad, tf = radial_grid(case["radial"])
+    coords = np.array(case["atoms"], dtype=float)
+    ats = [AtomGrid(rad, degrees=[case["degree"]], center=c) for c in coords]
+    if len(ats) == 1 and not case.get("as_molgrid"):
+        return ats[0], tf, coords
+    mg = MolGrid(atnums=np.array([1] * len(ats)), atgrids=ats, aim_weights=BeckeWeights(order=3), store=True)
+    return mg, tf, coords
+
+
+def lm_radial(l, alpha, power):
+    return lambda s: s ** power * np.exp(-alpha * s * s)
+
+
+def density_and_potential(case, coords):
+    """returns rho(points), V(points), total absolute charge scale"""
+    prims = case["density"]
+
+    def rho(p):
+        out = np.zeros(len(p))
+        for pr in prims:
+            if pr[0] == "s":
+                _, cen, c, a = pr
+                out += c * s_density(p, np.asarray(cen, float), [1.0], [a])
+            else:
+                _, l, row, c, a, power = pr
+                rel = p - coords[0]
+                r = np.linalg.norm(rel, axis=1)
+                with np.errstate(all="ignore"):
+                    y = real_harmonics_l2(rel)[l * l + row]
+                y = np.where(r > 0, y, 0.0)
+                out += c * lm_radial(l, a, power)(r) * y
+        return out
+
+    def pot(p):
+        out = np.zeros(len(p))
+        for pr in prims:
+            if pr[0] == "s":
+                _, cen, c, a = pr
+                out += c * s_potential(p, np.asarray(cen, float), [1.0], [a])
+            else:
+                _, l, row, c, a, power = pr
+                g = lm_radial(l, a, power)
+                rel = p - coords[0]
+                r = np.linalg.norm(rel, axis=1)
+                y = real_harmonics_l2(rel)[l * l + row]
+                rad = np.array([4 * np.pi / (2 * l + 1) * (quad(lambda s: s ** (l + 2) * g(s), 0, ri, epsabs=1e-12)[0] / ri ** (l + 1)
+                                                            + ri ** l * quad(lambda s: s ** (1 - l) * g(s), ri, np.inf, epsabs=1e-12)[0]) for ri in r])
+                out += c * rad * y
+        return out
+    scale = 0.0
+    for pr in prims:
+        if pr[0] == "s":
+            scale += abs(pr[2])
+        else:   # size of the potential of this component
+            _, l, row, c, a, power = pr
+            scale += abs(c) * 4 * np.pi / (2 * l + 1) * quad(lambda s: s ** (l + 2) * lm_radial(l, a, power)(s), 0, np.inf)[0]
+    return rho, pot, max(1.0, scale)
+
+
+def eval_points(case, coords, nprng, n):
+    """random points around the atoms, none closer than 1e-3 to a centre (the BVP closure returns 0 at the centre itself)"""
+    box = case.get("box", 3.0)
+    pts = []
+    while len(pts) < n:
+        p = coords[nprng.integers(0, len(coords))] + nprng.uniform(-box, box, size=3)
+        if min(np.linalg.norm(p - c) for c in coords) > 1e-3:
+            pts.append(p)
+    return np.array(pts)
+
+
+def solve_case(case, grid, tf, values):
+    np.random.seed(case.get("np_seed", 0))      # solve_ode_bvp draws its initial guess from np.random
+    kind = case["solver"]
+    if kind == "bvp":
+        kw = dict(case.get("bvp", {}))
+        return GP.solve_poisson_bvp(grid, values, InverseRTransform(tf), ode_params={}, **kw)
+    if kind == "ivp":
+        rad = grid.rgrid if isinstance(grid, AtomGrid) else grid[0].rgrid
+        iv = case.get("r_interval") or (float(np.max(rad.points)), float(np.min(rad.points)))
+        return GP.solve_poisson_ivp(grid, values, InverseRTransform(tf), r_interval=iv, ode_params={})
+    if kind == "robust":
+        return GR.solve_poisson_robust(grid, values, InverseRTransform(tf), np.array(case["atnums"]), np.array(case["atoms"], float),
+                                       split2=case["split2"], ode_params={}, **case.get("bvp", {}))
+    raise KeyError(kind)
+
+
+def run_case(ctx: Ctx, case, results):
+    """Solve, compare with the analytic potential at random points.  Returns (max error / scale, potential callable, grid)."""
+    nprng = np.random.default_rng([ctx.seed, case["id"]])
+    grid, tf, coords = build_grid(case)
+    rho, pot, scale = density_and_potential(case, coords)
+    pts = eval_points(case, coords, nprng, case.get("npts", 40))
+    try:
+        V = solve_case(case, grid, tf, rho(grid.points))
+    except ValueError as e:
+        if "didn't converge" in str(e):
+            ctx.count("sweep_not_converged")      # the ODE solver's documented failure mode: no potential is returned
+            results.append((case, None, None))
+            return None
+        raise
+    got = V(pts.copy())
+    exp = pot(pts)
+    err = np.abs(got - exp) / scale
+    j = int(np.argmax(np.where(np.isfinite(err), err, np.inf)))
+    results.append((case, float(err[j]), dict(point=pts[j].tolist(), got=float(got[j]), expected=float(exp[j]), scale=scale)))
+    ctx.case(("sweep", case["id"]))
+    ctx.count("sweep_" + case["solver"])
+    return V, grid, tf, coords, pts, rho
+
+
+def case_text(case):
+    return {k: v for k, v in case.items() if k not in ("id",)}
+
+
+def sweep_cases(ctx: Ctx):
+    rng = ctx.rng
+    q = ctx.quick
+    cases = []
+
+    def alpha():
+        return round(10 ** rng.uniform(-0.5, 0.7), 3)
+
+    def add(**kw):
+        kw["id"] = len(cases)
+        cases.append(kw)
+    O = [0.0, 0.0, 0.0]
+    gl = ("becke_gl", 70, 1e-5, 1.5)
+    # --- BVP, atom-centred s-type Gaussians: one and several exponents, the radial set-ups of the existing tests, options
+    add(solver="bvp", radial=gl, degree=rng.choice([5, 9]), atoms=[O], density=[("s", O, 1.0, alpha())], bvp=dict(remove_large_pts=10.0), cat="bvp")
+    add(solver="bvp", radial=gl, degree=7, atoms=[[0.5, -0.25, 1.0]],
+        density=[("s", [0.5, -0.25, 1.0], rng.choice([0.5, 1.5, -1.0]), alpha()), ("s", [0.5, -0.25, 1.0], 2.0, alpha()), ("s", [0.5, -0.25, 1.0], -0.75, alpha())],
+        bvp=dict(remove_large_pts=10.0), cat="bvp")
+    add(solver="bvp", radial=("becke_trap", 200, rng.choice([0.0, 1e-6]), 1.5), degree=5, atoms=[O], density=[("s", O, 1.0, alpha())],
+        bvp=dict(remove_large_pts=1e6, include_origin=True), cat="bvp")
+    add(solver="bvp", radial=("identity_laguerre", 100), degree=5, atoms=[O], density=[("s", O, 1.0, round(rng.uniform(0.1, 0.6), 3))],
+        bvp=dict(remove_large_pts=None), box=6.0, cat="bvp")
+    add(solver="bvp", radial=("becke_gl", 70, 1e-3, 1.5), degree=5, atoms=[O], density=[("s", O, 1.0, alpha())],
+        bvp=dict(remove_large_pts=10.0, include_origin=False), cat="bvp")
+    # --- anisotropic components rho = r^l exp(-a r^2) Y_lm against the analytic multipole potential
+    add(solver="bvp", radial=("becke_gl", 70, 1e-3, 1.5), degree=5, atoms=[O], density=[("lm", 1, rng.choice([0, 1, 2]), 1.0, alpha(), 1)],
+        bvp=dict(remove_large_pts=40.0, include_origin=False), box=2.0, npts=16, cat="bvp_lm")
+    add(solver="bvp", radial=gl, degree=5, atoms=[O], density=[("lm", 2, rng.choice([0, 1, 2, 3, 4]), 1.0, alpha(), 2)],
+        bvp=dict(remove_large_pts=40.0), box=2.0, npts=16, cat="bvp_lm")
+    add(solver="bvp", radial=("becke_gl", 70, 1e-3, 1.5), degree=5, atoms=[O],
+        density=[("s", O, 1.0, alpha()), ("lm", 1, rng.choice([0, 1, 2]), 0.8, alpha(), 1), ("lm", 2, rng.choice([0, 1, 2, 3, 4]), -0.6, alpha(), 2)],
+        bvp=dict(remove_large_pts=40.0, include_origin=False), box=2.0, npts=16, cat="bvp_lm")
+    # --- molecular grids (Becke weights), Gaussians on the atoms
+    add(solver="bvp", radial=("becke_gl", 60, 1e-5, 1.5), degree=9, atoms=[O, [10.0, 0.0, 0.0]],
+        density=[("s", O, 1.0, alpha()), ("s", [10.0, 0.0, 0.0], rng.choice([1.0, 0.5]), alpha())], bvp=dict(remove_large_pts=10.0), cat="bvp_mol")
+    add(solver="bvp", radial=gl, degree=5, atoms=[O], as_molgrid=True, density=[("s", O, 1.0, alpha())], bvp=dict(remove_large_pts=10.0), cat="bvp_mol")
+    # --- IVP, spherically symmetric densities
+    add(solver="ivp", radial=("becke_gl", 120, 0.01, 1.5), degree=5, atoms=[O], density=[("s", O, 1.0, alpha())], cat="ivp")
+    add(solver="ivp", radial=("linear_trap", 4000, 1e-3, 200.0), degree=3, atoms=[[1.0, 0.0, 0.0]],
+        density=[("s", [1.0, 0.0, 0.0], 1.0, round(rng.uniform(0.08, 0.5), 3)), ("s", [1.0, 0.0, 0.0], 0.5, round(rng.uniform(0.08, 0.5), 3))],
+        r_interval=(200.0, 1e-3), box=8.0, cat="ivp")
+    if not q:
+        for _ in range(10):
+            c = [round(rng.uniform(-1, 1), 2) for _ in range(3)]
+            add(solver="bvp", radial=("becke_gl", rng.choice([60, 90, 120]), rng.choice([1e-5, 1e-4, 1e-3]), rng.choice([1.0, 1.5, 2.5])),
+                degree=rng.choice([5, 9, 13]), atoms=[c], density=[("s", c, round(rng.uniform(-2, 2), 2) or 1.0, alpha()) for _ in range(rng.randint(1, 4))],
+                bvp=dict(remove_large_pts=rng.choice([10.0, 30.0])), cat="bvp")
+        for l in (1, 2):
+            for row in range(2 * l + 1):
+                add(solver="bvp", radial=("becke_gl", 80, 1e-3, 1.5), degree=rng.choice([5, 7]), atoms=[O], density=[("lm", l, row, 1.0, alpha(), l)],
+                    bvp=dict(remove_large_pts=40.0, include_origin=(l == 2)), box=2.0, npts=16, cat="bvp_lm")
+        add(solver="bvp", radial=("becke_trap", 250, 0.0, 1.5), degree=5, atoms=[O], density=[("lm", 1, 1, 1.0, 1.0, 1)],
+            bvp=dict(remove_large_pts=1e6, include_origin=True), box=2.0, npts=16, cat="bvp_lm")
+        # Gaussians NEAR (not on) the atom: all degrees of the expansion contribute
+        for d in (0.1, 0.25):
+            cen = [d, 0.0, 0.0] if rng.random() < 0.5 else [0.0, d * 0.6, -d * 0.8]
+            add(solver="bvp", radial=("becke_gl", 80, 1e-3, 1.5), degree=17, atoms=[O], density=[("s", cen, 1.0, round(rng.uniform(0.5, 1.5), 3))],
+                bvp=dict(remove_large_pts=40.0, include_origin=False), box=2.5, cat="bvp_near")
+        # molecules: 2 and 3 atoms
+        add(solver="bvp", radial=("becke_gl", 100, 1e-5, 1.5), degree=29, atoms=[O, [10.0, 0.0, 0.0]],
+            density=[("s", O, 1.0, 0.1), ("s", [10.0, 0.0, 0.0], 1.0, 0.1)], bvp=dict(remove_large_pts=10.0, include_origin=True), box=4.0, cat="bvp_mol")
+        add(solver="bvp", radial=("becke_gl", 60, 1e-4, 1.5), degree=9, atoms=[O, [9.0, 0.0, 0.0], [0.0, 9.0, 0.0]],
+            density=[("s", O, 1.0, alpha()), ("s", [9.0, 0.0, 0.0], -0.5, alpha()), ("s", [0.0, 9.0, 0.0], 0.7, alpha())],
+            bvp=dict(remove_large_pts=10.0), cat="bvp_mol")
+        for _ in range(4):
+            c = [round(rng.uniform(-1, 1), 2) for _ in range(3)]
+            add(solver="ivp", radial=("becke_gl", rng.choice([120, 200]), 0.01, 1.5), degree=rng.choice([3, 5, 11]), atoms=[c],
+                density=[("s", c, round(rng.uniform(0.3, 2), 2), alpha()) for _ in range(rng.randint(1, 3))], cat="ivp")
+        add(solver="ivp", radial=("linear_trap", 10000, 1e-3, 1000.0), degree=11, atoms=[O], density=[("s", O, 1.0, 0.1)],
+            r_interval=(1000.0, 1e-3), box=50.0, cat="ivp")
+    return cases
+
+
+def sweep_linearity(ctx: Ctx, out):
+    """V[a rho1 + b rho2] = a V[rho1] + b V[rho2] on the real solvers (validates the oracle hypothesis `solver_linear`
+    together with the linearity of splines and quadrature)."""
+    rng = ctx.rng
+    confs = [("bvp", ("becke_gl", 70, 1e-5, 1.5), 5, [[0.0, 0.0, 0.0]], dict(remove_large_pts=10.0)),
+             ("ivp", ("becke_gl", 120, 0.01, 1.5), 3, [[0.0, 0.0, 0.0]], {}),
+             ("bvp", ("becke_gl", 50, 1e-5, 1.5), 5, [[0.0, 0.0, 0.0], [10.0, 0.0, 0.0]], dict(remove_large_pts=10.0))]
+    if not ctx.quick:
+        confs += [("bvp", ("becke_gl", 90, 1e-3, 1.5), 9, [[0.3, 0.1, 0.0]], dict(remove_large_pts=30.0, include_origin=False)),
+                  ("bvp", ("becke_trap", 200, 0.0, 1.5), 5, [[0.0, 0.0, 0.0]], dict(remove_large_pts=1e6)),
+                  ("ivp", ("becke_gl", 150, 0.01, 1.5), 5, [[0.0, 0.0, 1.0]], {})]
+    for ci, (solver, radial, deg, atoms, kw) in enumerate(confs):
+        a, b = round(rng.uniform(-3, 3), 2), round(rng.uniform(-3, 3), 2)
+        case = dict(id=1000 + ci, solver=solver, radial=radial, degree=deg, atoms=atoms, bvp=kw, density=[])
+        grid, tf, coords = build_grid(case)
+        nprng = np.random.default_rng([ctx.seed, 1000 + ci])
+        a1, a2 = round(10 ** rng.uniform(-0.4, 0.6), 3), round(10 ** rng.uniform(-0.4, 0.6), 3)
+        rho1 = s_density(grid.points, coords[0], [1.0], [a1])
+        rho2 = s_density(grid.points, coords[-1], [0.6, 0.4], [a2, 2 * a2])
+        if solver == "bvp" and len(atoms) == 1:   # an anisotropic part as well (quadrupole)
+            rel = grid.points - coords[0]
+            rho2 = rho2 + 0.3 * np.sum(rel ** 2, axis=1) * np.exp(-a1 * np.sum(rel ** 2, axis=1)) * real_harmonics_l2(rel + 1e-300)[4 + ci % 5]
+        pts = eval_points(dict(box=3.0), coords, nprng, 40)
+        try:
+            Vs = [solve_case(case, grid, tf, r.copy())(pts.copy()) for r in (rho1, rho2, a * rho1 + b * rho2)]
+        except ValueError as e:
+            if "didn't converge" in str(e):
+                ctx.count("sweep_not_converged")
+                continue
+            raise
+        comb = a * Vs[0] + b * Vs[1]
+        scale = max(1.0, float(np.max(np.abs(a * Vs[0]) + np.abs(b * Vs[1]))))
+        dev = np.abs(Vs[2] - comb) / scale
+        j = int(np.argmax(dev))
+        ctx.case(("linearity", ci))
+        ctx.count("sweep_linearity")
+        out.append(dict(cat="lin", err=float(dev[j]), tol=LIN_TOL, key=f"linearity:{solver}:conf={ci}:seed={ctx.seed}",
+                        text=f"V[{a} rho1 + {b} rho2] differs from {a} V[rho1] + {b} V[rho2] by {float(dev[j]):.3e} (relative to the terms) at {pts[j].tolist()}",
+                        replay=dict(solver=solver, radial=radial, degree=deg, atoms=atoms, options=kw, a=a, b=b, alpha1=a1, alpha2=a2, point=pts[j].tolist(),
+                                    got=float(Vs[2][j]), expected=float(comb[j]))))
+
+
+def sweep_robust(ctx: Ctx, out):
+    from grid.coulomb import load_atomic_gaussian_params
+    rng = ctx.rng
+    confs = [([1], [[0.0, 0.0, 0.0]], 60, 5), ([rng.choice([6, 8])], [[0.0, 0.0, 0.0]], 70, 5)]
+    if not ctx.quick:
+        confs += [([1, 1], [[0.0, 0.0, 0.0], [10.0, 0.0, 0.0]], 60, 9), ([7], [[0.2, 0.0, -0.4]], 100, 9), ([17], [[0.0, 0.0, 0.0]], 100, 5)]
+    for ci, (atnums, atoms, nrad, deg) in enumerate(confs):
+        case = dict(id=2000 + ci, solver="robust", radial=("becke_gl", nrad, 1e-5, 1.5), degree=deg, atoms=atoms, atnums=atnums,
+                    bvp=dict(remove_large_pts=10.0))
+        grid, tf, coords = build_grid(case)
+        nprng = np.random.default_rng([ctx.seed, 2000 + ci])
+        pts = np.vstack([eval_points(dict(box=3.0), coords, nprng, 30), coords[:1]])
+        params = [load_atomic_gaussian_params(int(z)) for z in atnums]
+        core_v = sum(s_potential(pts, c, *p) for c, p in zip(coords, params))
+        core_scale = max(1.0, float(sum(np.sum(np.abs(p[0])) for p in params)))
+        for split2 in (False, True):
+            case["split2"] = split2
+            # (1) exact cancellation: the density IS the core model (built by the library's own routine: the residual is exactly 0)
+            dens = sum(GR._build_core_density(grid.points, c, *p) for c, p in zip(coords, params))
+            got = solve_case(case, grid, tf, dens.copy())(pts.copy())
+            err = np.abs(got - core_v) / core_scale
+            j = int(np.argmax(err))
+            ctx.case(("robust_exact", ci, split2))
+            ctx.count("sweep_robust")
+            out.append(dict(cat="robust", err=float(err[j]), tol=1e-9, key=f"robust_exact:atnums={atnums}:split2={split2}:conf={ci}:seed={ctx.seed}",
+                            text=f"density = fitted core model of Z={atnums}: solve_poisson_robust(split2={split2}) differs from the analytic core potential by "
+                                 f"{float(err[j]):.3e} (per unit core charge) at {pts[j].tolist()}",
+                            replay=dict(case=case_text(case), point=pts[j].tolist(), got=float(got[j]), expected=float(core_v[j]))))
+        # (2) smooth density: agreement with the analytic potential and with the plain solver
+        a = round(10 ** rng.uniform(-0.3, 0.4), 3)
+        dens = sum(s_density(grid.points, c, [1.0], [a]) for c in coords)
+        exact = sum(s_potential(pts[:-1], c, [1.0], [a]) for c in coords)
+        plain_case = dict(case, solver="bvp")
+        plain = solve_case(plain_case, grid, tf, dens.copy())(pts[:-1].copy())
+        for split2 in (False, True):
+            case["split2"] = split2
+            got = solve_case(case, grid, tf, dens.copy())(pts[:-1].copy())
+            scale = float(len(coords)) + core_scale       # the numerical part solves for rho - core model
+            err = np.maximum(np.abs(got - exact), np.abs(got - plain)) / scale
+            j = int(np.argmax(err))
+            ctx.case(("robust_smooth", ci, split2))
+            ctx.count("sweep_robust")
+            out.append(dict(cat="robust", err=float(err[j]), tol=TOL, key=f"robust_smooth:atnums={atnums}:alpha={a}:split2={split2}:conf={ci}:seed={ctx.seed}",
+                            text=f"Gaussian density alpha={a} on Z={atnums}: solve_poisson_robust(split2={split2}) = {float(got[j])}, analytic {float(exact[j])}, "
+                                 f"plain solver {float(plain[j])} at {pts[j].tolist()}",
+                            replay=dict(case=case_text(case), alpha=a, point=pts[j].tolist(), got=float(got[j]), expected=float(exact[j]), plain=float(plain[j]))))
+
+
+def sweep(ctx: Ctx):
+    """returns list of dict(cat, err, tol, key, text, replay) for every comparison made"""
+    out = []
+    results = []
+    for case in sweep_cases(ctx):
+        run_case(ctx, case, results)
+    for case, err, info in results:
+        if err is None:
+            continue
+        out.append(dict(cat=case["cat"], err=err, tol=TOL, key=f"{case['solver']}:case={case['id']}:tier={ctx.tier}:seed={ctx.seed}",
+                        text=f"solve_poisson_{case['solver']} = {info['got']} but the analytic potential is {info['expected']} at {info['point']} "
+                             f"(error {err:.3e} per unit charge, allowed {TOL}); case {case_text(case)}",
+                        replay=dict(case=case_text(case), **info)))
+    sweep_linearity(ctx, out)
+    sweep_robust(ctx, out)
+    return out
+
+
+# which sweep categories can exhibit a concrete failing input for a broken obligation
+OBLIGATION_CATS = {
+    "bvp_ode_is_radial_poisson": ["bvp_lm", "bvp", "bvp_mol"], "bvp_ode_explicit_form": ["bvp_lm", "bvp"], "radial_laplacian": ["bvp"],
+    "bvp_coeff_at_origin": ["bvp_lm", "bvp"], "ivp_ode_is_radial_poisson": ["ivp"], "far_field": ["bvp", "bvp_mol"],
+    "far_field_other_components": ["bvp_lm"], "far_field_ivp": ["ivp"], "far_field_ivp_other_components": ["ivp"],
+    "lm_enumeration": ["bvp_lm", "bvp"], "lm_enumeration_ivp": ["ivp"], "laplacian_expansion": ["lap"], "laplacian_degrees": ["lap"],
+    "linear_in_density": ["lin", "bvp"], "linear_in_density_ivp": ["lin", "ivp"], "robust_recombination": ["robust"],
+    "robust_recombination_sound": ["robust"], "robust_exact_on_core_model": ["robust"], "robust_core_pair_poisson": ["robust"],
+}
+
+
+def sweep_laplacian(ctx: Ctx, out):
+    """interpolate_laplacian of the analytic potential gives back -4 pi rho (oracle validation of the spline derivatives)"""
+    tf = BeckeRTransform(1e-3, 1.5)
+    rad = tf.transform_1d_grid(Trapezoidal(800 if ctx.quick else 3000))
+    ag = AtomGrid(rad, degrees=[5])
+    a = round(ctx.rng.uniform(0.1, 0.6), 3)
+    lap = GP.interpolate_laplacian(ag, s_potential(ag.points, np.zeros(3), [1.0], [a]))
+    nprng = np.random.default_rng([ctx.seed, 3000])
+    pts = nprng.uniform(-2, 2, size=(40, 3))
+    pts = pts[np.linalg.norm(pts, axis=1) > 0.2]
+    got = lap(pts.copy())
+    exp = -4 * np.pi * s_density(pts, np.zeros(3), [1.0], [a])
+    err = np.abs(got - exp)
+    j = int(np.argmax(err))
+    ctx.case(("sweep_laplacian", a))
+    out.append(dict(cat="lap", err=float(err[j]), tol=TOL, key=f"laplacian:alpha={a}:seed={ctx.seed}",
+                    text=f"interpolate_laplacian(erf(sqrt({a}) r)/r) = {float(got[j])} but -4 pi rho = {float(exp[j])} at {pts[j].tolist()}",
+                    replay=dict(alpha=a, point=pts[j].tolist(), got=float(got[j]), expected=float(exp[j]))))
+
+
+def run(ctx: Ctx):  # noqa: F811
+    gen_ok = True
+    try:
+        gen(ctx)
+    except U as e:
+        gen_ok = False
+        ctx.fail("translate", f"translate:{e}", None, f"poisson.py / robust_poisson.py left the translated subset: {e}", {}, found_input=False)
+    status = {}
+    if gen_ok:
+        ctx.copy_coq("C16")
+        try:    # the C17 development (erf, s_poisson on the regenerated coulomb.py) for the core density / core potential pair
+            from props import c17
+            c17.gen(ctx)
+            ctx.copy_coq("C17/C17_erf.v", "C17/C17_proofs.v")
+        except Exception as e:  # noqa: BLE001
+            ctx.notes.append(f"C17 development not available: {e}")
+        status = ctx.coq_build()
+        ctx.register_props(status)
+    # --- tie
+    if gen_ok and status.get("C16_gen.v") and status.get("C16_model.v"):
+        tie_solvers(ctx)
+        tie_laplacian(ctx)
+        tie_robust(ctx)
+    tie_molhelper(ctx)
+    # --- oracle validation + search on the real solvers
+    out = sweep(ctx)
+    sweep_laplacian(ctx, out)
+    worst = {}
+    for rec in out:
+        ctx.cov.setdefault("sweep_max_error_over_tol", {})
+        m = ctx.cov["sweep_max_error_over_tol"]
+        m[rec["cat"]] = round(max(m.get(rec["cat"], 0.0), rec["err"] / rec["tol"]), 4)
+        if not rec["err"] <= rec["tol"]:
+            if rec["cat"] not in worst or rec["err"] / rec["tol"] > worst[rec["cat"]]["err"] / worst[rec["cat"]]["tol"]:
+                worst[rec["cat"]] = rec
+    used = set()
+    for name, ob in ctx.obligations.items():
+        if ob["status"] == "discharged":
+            continue
+        for cat in OBLIGATION_CATS.get(name, []):
+            if cat in worst:
+                rec = worst[cat]
+                used.add(cat)
+                ctx.fail(name, rec["key"], round(rec["err"], 9), f"theorem {name} no longer checks; concrete input: {rec['text']}", rec["replay"])
+                break
+    for cat, rec in worst.items():
+        if cat not in used:
+            ctx.fail(f"sweep_{cat}", rec["key"], round(rec["err"], 9), rec["text"], rec["replay"])
+    ctx.cov["rule"] = ("tie: solve_ode_bvp/solve_ode_ivp replaced in-process by recorders on small atomic grids with dyadic radial points "
+                       "(degrees 3-7, random centres, include_origin / remove_large_pts / ode_params variants); every captured coefficient callable, f_x, "
+                       "boundary or initial value is enclosed by `interval` against the regenerated Coq term, the captured (counter, degree, monopole) "
+                       "sequence is compared with the regenerated loop nest by vm_compute, marker solutions check spline row <-> harmonic row; "
+                       "interpolate_laplacian on g(r) Y_k row by row; solve_poisson_robust with the BVP solve replaced by a recorder. "
+                       "sweep (oracle validation, partial): real solves vs analytic erf / multipole potentials, linearity, robust exact-cancellation")
+    ctx.trusted += [
+        "fail-closed ast translator tools/props/c16.py (validated by the interval / vm_compute correspondence cases)",
+        "interval tactic (Interval 4.6)",
+        "ORACLE solver_linear: solve_ode_bvp / solve_ode_ivp are linear in (f_x, boundary or initial values) -- validated on each run by the linearity sweep to "
+        f"{LIN_TOL} relative",
+        "ORACLE atom_linear: AtomGrid.radial_component_splines and AtomGrid.integrate are linear in the function values (same sweep)",
+        "ORACLE rows: row k of generate_real_spherical_harmonics / radial_component_splines is the Horton-2 row (validated against Cartesian formulas for l <= 2)",
+        "ORACLE Y00 = 1/sqrt(4 pi) (validated on each run)",
+        "ORACLE fit: _fit_residual_gaussians returns (c >= 0, alphas, centres, residual - sum c g) (validated in the robust capture)",
+        f"partial: agreement of the numerical solutions with the analytic potentials is tested to {TOL} per unit charge (tolerance of the existing tests), "
+        "not proved: discretisation error of splines and of scipy's collocation / Runge-Kutta solvers",
+        "scipy.special.erf and scipy.integrate.quad as independent oracles of the sweep",
+    ]
+    ctx.assumptions += [
+        "densities resolved by the grid: exponents 0.3..5, centres on the atoms (quick) or within 0.25 bohr (thorough), atoms of molecular grids well separated",
+        "a ValueError('The ode solver didn't converge') is the ODE solver's documented failure mode and counts as 'not resolved' (counted, not a violation)",
+        "the BVP closure returns 0 exactly at an expansion centre (documented: solution assumed zero at the origin); evaluation points avoid the centres",
+    ]
+    y00 = float(generate_real_spherical_harmonics(0, np.array([0.1]), np.array([0.1]))[0, 0])
+    if abs(y00 - 1 / math.sqrt(4 * math.pi)) > 1e-14:
+        ctx.fail("oracle_Y00", "oracle:Y00", y00, f"Y_00 = {y00} is not 1/sqrt(4 pi)", {}, found_input=True)
